@@ -40,6 +40,7 @@ Report back, for each change: the diff, exactly what is needed for the violation
 """
 
 ROUNDS = {
+    "r7": "This round: INTERACTIONS. The change must be invisible when each feature is used alone and show only when two of them meet: two backends used in one project; spec hashing together with name patterns or with touch/clean; target options together with templates and workflow defaults; protect sets together with shared files; cancel together with a later run; a sub-directory invocation together with a relative -f; symbolic links together with path normalisation; time limits together with cancellation in the local pool; two clients of the local pool at once; a failed dependency together with a later submission. Plausible maintenance work of at least two changed lines, the two changes in different files, no single-token mutations.",
     "r6": "This round: think about the BOUNDARIES of what this property covers. Empty things (a workflow with no targets, a target with no inputs or no outputs, an empty spec, an empty selection, zero matching names, an empty or missing state or configuration file), singletons, very large things (thousands of targets, very long names, paths or specs, large outputs), repeated things (the same command twice in a row, the same file listed twice in one target, the same name matched by two patterns, the same job id seen twice), things that change between two invocations (a target removed or renamed, a file replaced by a directory, a backend switched), and error paths (what gwf does after something else has already failed). Each change must read like plausible maintenance work of at least two changed lines, and the two changes must be in different files. No single-token mutations.",
     "r5": "This round: NO single-token mutations. Each change must read like honest work by a maintainer - a refactoring, a clean-up, a performance tweak, a small feature or a 'robustness' fix of at least three changed lines whose author believes it preserves behaviour - that differs from the original in a corner this property covers. Aim for the less-travelled combinations: the SGE, LSF or local backends; target options and workflow defaults; templates and map; name patterns with ? and []; dotted target names; PathLike, tuple, nested or dict-valued inputs/outputs; symbolic links; spec hashing being switched on or off between invocations; histories of several gwf invocations; invocation from a sub-directory or with -f. The two changes must be in different files.",
     "r4": "This round: at least ONE of your two changes must be OUTSIDE the files named in the code anchors - in a layer the property depends on indirectly (command-line/plugin option handling, configuration lookup, backend selection and loading, workflow loading, path or name helpers, logging set-up, persistence helpers, the way one module consumes another's return value). The other may be anywhere but must use a mechanism different from all of the listed ones.",
